@@ -25,9 +25,16 @@ def gen_layer(rng: random.Random, size, bs, ss, has_parent, tier, seed):
     nb = (size + bs - 1) // bs
     spb = bs // ss
     blocks = []
+    npart = 0
     for b in range(nb):
         if has_parent:
             st = rng.choice([0, 0, 6, 7, 7, 7, 2])
+            if st == 7 and spb > 8192:
+                # huge blocks: keep the number of per-sector bitmaps small, but put them late (beyond the first chunk)
+                if b < ratio or npart >= 3:
+                    st = rng.choice([0, 6, 2])
+                else:
+                    npart += 1
         else:
             st = rng.choice([0, 1, 2, 3, 6, 6, 6])
         blocks.append(st)
@@ -75,7 +82,7 @@ def gen_recipe(rng: random.Random, tier="quick", depth=None, big=False):
     size = nb * bs - (rng.randrange(1, bs // ss) * ss if rng.random() < 0.4 else 0)
     if depth is None:
         depth = 1
-    layers = [gen_layer(rng, size, bs if k == 0 or rng.random() < 0.7 else rng.choice([1, 2, 4]) * MB, ss, k > 0, tier, rng.randrange(256))
+    layers = [gen_layer(rng, size, bs if (k == 0 or big or rng.random() < 0.7) else rng.choice([1, 2, 4]) * MB, ss, k > 0, tier, rng.randrange(256))
               for k in range(depth)]
     return {"layers": layers}
 
@@ -97,7 +104,7 @@ def _locator_blob(entries: dict[str, str]) -> bytes:
     return bytes(hdr) + bytes(table) + bytes(strings)
 
 
-def build_layer(l, parent_name=None, name="x.vhdx"):
+def build_layer(l, parent_name=None, name="x.vhdx", absdir=None):
     size, bs, ss = l["size"], l["bs"], l["ss"]
     ratio = (2 ** 23 * ss) // bs
     spb = bs // ss
@@ -147,7 +154,7 @@ def build_layer(l, parent_name=None, name="x.vhdx"):
         if l["locator"] in ("relative", "both"):
             ent["relative_path"] = ".\\" + parent_name
         if l["locator"] in ("absolute", "both"):
-            ent["absolute_win32_path"] = "C:\\nonexistent\\" + parent_name
+            ent["absolute_win32_path"] = (absdir.lstrip("/").replace("/", "\\") + "\\" if absdir else "C:\\nonexistent\\") + parent_name
         if l["locator"] == "absolute":
             ent["relative_path"] = ".\\missing-" + parent_name
         items.append((PLOC, _locator_blob(ent), 4))
@@ -177,7 +184,16 @@ def build_layer(l, parent_name=None, name="x.vhdx"):
             off = data0 + l["phys"][str(b)] * bs
             loc[b] = off
             bat[idx] = st | ((off // MB) << 20)
-            im.put_pat(off, bs, (l["seed"] + 17 * b) & 0xFF)
+            sd = (l["seed"] + 17 * b) & 0xFF
+            if bs <= 8 * MB:
+                im.put_pat(off, bs, sd)
+            else:
+                # huge blocks: data only in windows (start, end, every 16 MiB) so that materialising the file stays cheap
+                w = 128 << 10
+                im.put_pat(off, w, sd)
+                for m in range(16 * MB, bs - w, 16 * MB):
+                    im.put_pat(off + m, 64 << 10, sd)
+                im.put_pat(off + bs - w, w, sd)
             end = max(end, off + bs)
         else:
             bat[idx] = st | ((((b * 7 + 3) % 50) << 20) if st in (1, 2, 3) and b % 2 else 0)
@@ -221,10 +237,10 @@ def rng_garbage_sig(seed):
 
 
 class Truth:
-    def __init__(self, r):
+    def __init__(self, r, absdir=None):
         self.layers = []
         for k, l in enumerate(r["layers"]):
-            im, loc = build_layer(l, parent_name=f"l{k-1}.vhdx" if k else None)
+            im, loc = build_layer(l, parent_name=f"l{k-1}.vhdx" if k else None, absdir=absdir)
             self.layers.append((l, im, loc))
         self.size = r["layers"][-1]["size"]
 
